@@ -48,6 +48,9 @@ static void write_srec_line(
     }
   }
 
+  // An S2 record can only carry a 24 bit address.
+  if (type == 2 && address > 0xffffff) { type = 3; }
+
   if (type <= 1)
   {
     address &= 0xffff;
